@@ -308,11 +308,27 @@ def _run_unit_inner(unit_name, tier, repo, workdir, rlimit_factor, tpath, _round
                     r2["auto_extracted"] = missing + r2["auto_extracted"]
                     # a helper without contract cannot be judged modularly: obligations that fail inside it are
                     # "needs contract", not violations (the bounded driver decides whether a real input fails)
+                    # ... and so is an obligation of a function that CALLS such a helper: Verus knows nothing about the helper's
+                    # result, so e.g. a postcondition about a value that now flows through the helper cannot be proved although
+                    # the code may be right ("needs contract"). Callers are found in the first-round text (same function texts).
+                    callers = set()
+                    try:
+                        pat = re.compile(r"\b(%s)\s*\(" % "|".join(re.escape(n) for n in missing))
+                        for k, line in enumerate(u.text.split("\n")):
+                            if pat.search(line) and k < len(u.linemap) and u.linemap[k] and u.linemap[k][0] == "repo" and u.linemap[k][3]:
+                                callers.add(u.linemap[k][3])
+                    except Exception:
+                        callers = set()
+                    r2.setdefault("auto_callers", [])
+                    r2["auto_callers"] = sorted(callers | set(r2["auto_callers"]))
                     keep = []
                     for f in r2["failures"]:
                         if (f.get("function") or "").split("::")[-1] in r2["auto_extracted"]:
                             r2["undecided"].append("obligation %s at %s %s fails inside the new helper `%s`, which has no contract (auto-extracted)" % (
                                 f["kind"], f.get("where", ""), f.get("detail", ""), f.get("function")))
+                        elif f.get("function") in r2["auto_callers"]:
+                            r2["undecided"].append("obligation %s at %s fails in `%s`, which calls the new helper(s) %s that have no contract (auto-extracted): needs contract" % (
+                                f["obligation"], f.get("where", ""), f.get("function"), ", ".join(missing)))
                         else:
                             keep.append(f)
                     r2["failures"] = keep
